@@ -64,4 +64,42 @@ TEXT = {
         "technique": "Lean 4 proof (table facts by kernel decide per leading-zero class + findIdx lemmas) + "
                      "exhaustive 2^32 sweep of the compiled function",
     },
+    "C04": {
+        "level": "Proof: for every hash value, encoder configuration (3 tables + hex-simd contract) and variant the "
+                 "text written equals the canonical spec text (encode_eq_spec), has the advertised length and only "
+                 "'T1' + [0-9A-F] (format_length, format_charset); parse(format(h,p)) = h for both prefix modes and "
+                 "auto-detection, all 4 decoders + hex-simd contract (parse_format); every accepted string "
+                 "re-formats to 'T1'+upper(digits) (format_parse) hence injectivity up to case/prefix; extracted "
+                 "tables = reference (tables). Correspondence over six codec configurations incl. Display, "
+                 "to_string, FromStr, from_str_with entry points (direct oracles).",
+        "note": COMMON_NOTE + " hex-simd by contract.",
+        "technique": "Lean 4 proof (per-digit kernel decide lifted through lists) + model/code differential replay",
+    },
+    "C05": {
+        "level": "Proof: for every byte list, prefix mode, variant and decoder configuration the parser model "
+                 "returns Ok or Err, never panics (parse_total, incl. strict); lenient: Ok iff well-formed "
+                 "(parse_ok_iff) with the denoted value (parse_value); InvalidStringLength iff the length is wrong "
+                 "(parse_err_length); other errors only when they apply (parse_err_applicable). Correspondence: "
+                 "position x 256-byte-value sweeps and structured malformations in six decoder configurations.",
+        "note": COMMON_NOTE + " hex-simd by contract.",
+        "technique": "Lean 4 proof (parser = spec parser, per-digit kernel decide) + exhaustive position/byte sweeps",
+    },
+    "C06": {
+        "level": "Proof: try_from(bytes) = the hash with exactly those fields and stores back to the same bytes, "
+                 "for arrays and slices; other lengths give InvalidStringLength; never panics; quartile(i) is dibit "
+                 "i%4 of byte len-1-i/4 and panics iff i >= buckets; hex form = header bytes nibble-swapped + body; "
+                 "clear_checksum zeroes only the checksum. Correspondence: every slice length, header sweeps, all "
+                 "bucket indices incl. out-of-range, all 256 Q-ratio bytes.",
+        "note": COMMON_NOTE + " bitfield-struct accessors are exercised, not modelled.",
+        "technique": "Lean 4 proof over the byte-layout model + model/code differential replay",
+    },
+    "C14": {
+        "level": "Proof: for store_into_bytes and store_into_str_bytes (both prefixes, every encoder "
+                 "configuration): BufferIsTooSmall iff L < N and then the buffer is unchanged; otherwise Ok(N), "
+                 "first N bytes = representation, every byte beyond untouched, never panics "
+                 "(store_into_bytes_spec, store_into_str_bytes_spec). Correspondence: every L in 0..N+64 with a "
+                 "sentinel pattern in five encoder configurations.",
+        "note": COMMON_NOTE + " hex-simd output extent by contract + sentinel test.",
+        "technique": "Lean 4 proof (overwrite contract) + every-buffer-length differential replay",
+    },
 }
